@@ -136,8 +136,8 @@ ADDENDA = {
  "C15": " Fields stored by the request path are reset by the flush path (R15.7).",
  "C16": " Fields stored by the request path are reset by the flush path (R16.6); a finished lookup is removed from the table by identity (R16.7).",
  "C20": " Every message passed to Send is a fresh object or one that arrived through a port (R20.13).",
- "C02": " The FLAT offset is widened through int32 at every 64-bit use in the coalescer (R02.10), and the lane info of a load is matched to a transaction register by register (R02.11).",
- "C03": " Every widening of the signed FLAT/GLOBAL offset to 64 bits passes through int32 in both ALUs (R03.37; DS-only functions exempt). The input-modifier helpers are interpreted over a sign domain for the four ABS/NEG combinations (R03.38); SCC of 32-bit scalar shifts is decided on the 32-bit result (R03.39).",
+ "C02": " The FLAT offset is widened through int32 at every 64-bit use in the coalescer (R02.10), and the lane info of a load is matched to a transaction register by register (R02.11); the shared ALU's LDS is bound to the executing wave right before each run of the LDS unit (R02.12).",
+ "C03": " Every widening of the signed FLAT/GLOBAL offset to 64 bits passes through int32 in both ALUs (R03.37; DS-only functions exempt). The input-modifier helpers are interpreted over a sign domain for the four ABS/NEG combinations (R03.38); SCC of 32-bit scalar shifts is decided on the 32-bit result (R03.39); the bit-level instructions (logic, moves, shifts, bit-field extract / insert, sign extension, conditional move, align) are decided exactly, bit for bit, over the bit-provenance domain (R03.40); loads hand the destination 4 bytes per register (R03.41); products wider than their factors are formed in 64 bits (R03.42).",
  "C04": " Packed VOP3P rows decode no ABS/OMOD (R04.25); a decoder that stores the raw NEG/ABS field derives the per-source flags and the printer arm of that format reads them (R04.26); the literal size step is judged with decoder helpers expanded at their call sites (R04.5); every operand constructor returns storage of that call (R04.27); an operand is widened under the width column of that operand (R04.28); FLAT and SMEM operand counts follow the mnemonic of every table row (R04.29, R04.30).",
  "C06": " A vector handler reads an operand once outside its lane loop only if the decoder of every format reaching the handler builds that operand as a non-register constant (R06.hoist).",
  "C10": " The buddy block serving a multi-page request has the order established by the search loop (1 << order) < numPages * pageSize (or c + bits.Len(uint(numPages-1))) and the free-list level is derived from it (R10.12); Distribute's pieces tile the buffer (R10.13).",
